@@ -52,7 +52,7 @@ def raw_config(sc):
     if sc["rms"] >= 0:
         real["realization_min_success"] = sc["rms"]
     cfg = {"variables": var, "gradient": grad, "realizations": real,
-           "objectives": {"weights": {"one": [1.0], "pair": [1.0, 3.0], "zero": [0.0, 0.0], "mixed": [3.0, -1.0]}[sc["owp"]]}}
+           "objectives": {"weights": {"one": [1.0], "big": [4.0], "pair": [1.0, 3.0], "zero": [0.0, 0.0], "mixed": [3.0, -1.0]}[sc["owp"]]}}
     if V >= 2 and sc["magn"] != "badlen" and sc["mask"] != "badlen":
         # an explicit sampler assignment (an optional array that must be frozen like every other one)
         cfg["samplers"] = [{"method": "norm"}, {"method": "uniform"}]
